@@ -421,9 +421,14 @@ class _State:
         memo = None
         if isinstance(st, (ast.Assign, ast.AnnAssign)) and isinstance(target, ast.Attribute) and isinstance(base, ast.Name) and base.id in self.roots:
             memo = self.eff.memo_attr(self.fi, base, target.attr)
+        # a KEYED memo: `self._cache[key] = value` / `del self._cache[key]` on a private attribute that is none of the declared tables
+        owner = None
+        if isinstance(target, ast.Subscript) and isinstance(base, ast.Attribute) and isinstance(base.value, ast.Name) and base.value.id in self.roots:
+            memo = self.eff.memo_attr(self.fi, base.value, base.attr)
+            owner = base.value.id
         for r in refs:
             if r.level == 0:
-                self.mutate(r.root, st, f"store through `{norm(base)}`, which refers to state of `{r.root}`", memo if memo and r.root == base.id else None)
+                self.mutate(r.root, st, f"store through `{norm(base)}`, which refers to state of `{r.root}`", memo if memo and r.root == (owner or getattr(base, "id", None)) else None)
 
     def bind_target(self, target, val):
         if isinstance(target, ast.Name):
@@ -554,9 +559,12 @@ class _State:
                         for a in args:
                             self._capture(ht[0], ht[1], a)
                 if name in MUTATORS:
+                    kmemo = None
+                    if isinstance(f.value, ast.Attribute) and isinstance(f.value.value, ast.Name) and f.value.value.id in self.roots:
+                        kmemo = self.eff.memo_attr(self.fi, f.value.value, f.value.attr)  # self._cache.pop(key) / .clear()
                     for r in recv:
                         if r.level == 0:
-                            self.mutate(r.root, e, f"`.{name}()` on `{norm(f.value)}`, which refers to state of `{r.root}`")
+                            self.mutate(r.root, e, f"`.{name}()` on `{norm(f.value)}`, which refers to state of `{r.root}`", kmemo if kmemo and r.root == f.value.value.id else None)
                     return {Ref(r.root, 0) for r in recv} if name in ("pop", "setdefault") else set()
                 if name in ("copy",):
                     return {Ref(r.root, 1) for r in recv}
@@ -754,6 +762,17 @@ def check_cache_coherence(ctx, res: Result, cls: str, attr: str, rule="E-CACHE")
     res.rules.setdefault(rule, "a value cached on the object by a query is rebound by every method that changes the tables it was computed from")
     methods = ctx.methods(cls)
     memo_always: Dict[str, bool] = {}
+    keyed: Set[int] = set()  # CFG ids (of any method) at which only SOME entries of a keyed memo are dropped
+    keyed_methods: Set[str] = set()
+    keyed_of: Dict[tuple, bool] = {}
+    # methods that drop entries of the keyed memo one by one (possibly in a loop, possibly not on every path)
+    for m_ in methods.values():
+        me_ = m_.params[0].arg if m_.params else "self"
+        for n_ in walk_no_nested(m_.node):
+            if isinstance(n_, ast.Call) and isinstance(n_.func, ast.Attribute) and n_.func.attr in ("pop", "popitem") and isinstance(n_.func.value, ast.Attribute) and n_.func.value.attr == attr and isinstance(n_.func.value.value, ast.Name) and n_.func.value.value.id == me_:
+                keyed_methods.add(m_.qualname)
+            if isinstance(n_, ast.Delete) and any(isinstance(t_, ast.Subscript) and isinstance(t_.value, ast.Attribute) and t_.value.attr == attr and isinstance(t_.value.value, ast.Name) and t_.value.value.id == me_ for t_ in n_.targets):
+                keyed_methods.add(m_.qualname)
 
     def rebind_points(fi, depth=0):
         """CFG ids of statements after which the memo has certainly been rebound"""
@@ -767,12 +786,26 @@ def check_cache_coherence(ctx, res: Result, cls: str, attr: str, rule="E-CACHE")
                     cid = v.cfg_id(n)
                     if cid is not None:
                         pts.add(cid)
+                # keyed memo: entries dropped one by one (`del self._cache[key]`) - WHICH entries is not decided here
+                if isinstance(n, ast.Delete) and any(isinstance(t, ast.Subscript) and isinstance(t.value, ast.Attribute) and t.value.attr == attr and isinstance(t.value.value, ast.Name) and t.value.value.id == me for t in tg):
+                    cid = v.cfg_id(n)
+                    if cid is not None:
+                        pts.add(cid)
+                        keyed.add(cid)
+            if isinstance(n, ast.Call) and isinstance(n.func, ast.Attribute) and n.func.attr in ("clear", "pop", "popitem") and isinstance(n.func.value, ast.Attribute) and n.func.value.attr == attr and isinstance(n.func.value.value, ast.Name) and n.func.value.value.id == me:
+                cid = v.cfg_id(n)
+                if cid is not None:
+                    pts.add(cid)
+                    if n.func.attr != "clear":
+                        keyed.add(cid)
             if isinstance(n, ast.Call) and depth < 3:
                 for c in v._same_object_callees(n):
-                    if always(c, depth + 1):
+                    if always(c, depth + 1) or c.qualname in keyed_methods:
                         cid = v.cfg_id(n)
                         if cid is not None:
                             pts.add(cid)
+                            if c.qualname in keyed_methods:
+                                keyed_of[("node", fi.qualname, cid)] = True
         return pts
 
     def always(fi, depth=0):
@@ -787,9 +820,13 @@ def check_cache_coherence(ctx, res: Result, cls: str, attr: str, rule="E-CACHE")
 
     def direct_rebind(fi):
         me = fi.params[0].arg if fi.params else "self"
-        return any(isinstance(n, ast.Assign) and any(isinstance(t, ast.Attribute) and t.attr == attr and isinstance(t.value, ast.Name) and t.value.id == me for t in n.targets) and not (isinstance(n.value, ast.Constant) and n.value.value is None) for n in walk_no_nested(fi.node))
+        if any(isinstance(n, ast.Assign) and any(isinstance(t, ast.Attribute) and t.attr == attr and isinstance(t.value, ast.Name) and t.value.id == me for t in n.targets) and not (isinstance(n.value, ast.Constant) and n.value.value is None) and not (isinstance(n.value, ast.Dict) and not n.value.keys) and norm(n.value) not in ("dict()", "{}") for n in walk_no_nested(fi.node)):
+            return True
+        # keyed memo: the filler stores an entry `self._cache[key] = value`
+        return any(isinstance(n, ast.Assign) and any(isinstance(t, ast.Subscript) and isinstance(t.value, ast.Attribute) and t.value.attr == attr and isinstance(t.value.value, ast.Name) and t.value.value.id == me for t in n.targets) for n in walk_no_nested(fi.node))
 
     fillers = [fi for fi in methods.values() if fi.name != "__init__" and direct_rebind(fi)]
+    is_keyed = bool(keyed_methods) or any(isinstance(n, ast.Assign) and any(isinstance(t, ast.Subscript) and isinstance(t.value, ast.Attribute) and t.value.attr == attr for t in n.targets) for fi in fillers for n in walk_no_nested(fi.node))
     deps = set()
     for fi in fillers:
         consts = {q: d.value for q, d in fi.defaults().items() if isinstance(d, ast.Constant) and (d.value is None or isinstance(d.value, (bool, int, float, str)))}
@@ -798,6 +835,18 @@ def check_cache_coherence(ctx, res: Result, cls: str, attr: str, rule="E-CACHE")
         res.unknown(rule, f"{cls}", f"self.{attr}", "depends-on", "the tables the cached value is computed from were not determined", "")
         return
     res.ok(rule, fillers[0].short, f"self.{attr}", "depends-on:" + ",".join(sorted(deps)), loc(fillers[0], fillers[0].node))
+    # tables whose VALUES (not only whose keys) the cached quantity is computed from: `self.T[k]`, T.get / values / items
+    value_deps = set()
+    for fi in fillers:
+        me = fi.params[0].arg if fi.params else "self"
+        for x in walk_no_nested(fi.node):
+            base = None
+            if isinstance(x, ast.Subscript) and isinstance(x.ctx, ast.Load):
+                base = x.value
+            elif isinstance(x, ast.Call) and isinstance(x.func, ast.Attribute) and x.func.attr in ("get", "values", "items"):
+                base = x.func.value
+            if isinstance(base, ast.Attribute) and isinstance(base.value, ast.Name) and base.value.id == me and base.attr in deps:
+                value_deps.add(base.attr)
     n = 0
     for name, fi in sorted(methods.items()):
         if name == "__init__":
@@ -809,17 +858,29 @@ def check_cache_coherence(ctx, res: Result, cls: str, attr: str, rule="E-CACHE")
         pts = rebind_points(fi)
         for o in writes:
             n += 1
-            hard = not o.elem_level and not o.may and o.op in ("store", "del", "clear", "setattr", "remove")
+            hard = not o.elem_level and not o.may and (o.op in ("store", "del", "clear", "setattr", "remove") or (o.op == "aug" and o.table in value_deps))
             cid = v.cfg_id(o.node)
             covered = cid is not None and (cid in pts or not (v.cfg.reaches_without(v.cfg.entry, cid, pts) and v.cfg.reaches_without(cid, v.cfg.exit, pts)))
-            if covered:
+            whole = pts - keyed - {c_ for c_ in pts if _via_keyed(ctx, v, c_, keyed_of)}
+            fully = cid is not None and (cid in whole or not (v.cfg.reaches_without(v.cfg.entry, cid, whole) and v.cfg.reaches_without(cid, v.cfg.exit, whole)))
+            if covered and not fully:
+                res.unknown(rule, fi.short, o.text(), f"rebound:{o.table}", f"entries of the keyed cache self.{attr} are dropped one by one on this path; whether they are the entries that depend on the change is not decided here (K-MEMOKEY checks the units of the keys)", loc(fi, o.node))
+            elif covered:
                 res.ok(rule, fi.short, o.text(), f"rebound:{o.table}", loc(fi, o.node))
+            elif hard and is_keyed:
+                res.unknown(rule, fi.short, o.text(), f"rebound:{o.table}", f"{fi.short} changes {o.table} without touching the keyed cache self.{attr}; whether any cached entry depends on the changed entry is not decided", loc(fi, o.node))
             elif hard:
                 res.violation(rule, fi.short, o.text(), f"rebound:{o.table}", f"{fi.short} changes {o.table}, from which the cached self.{attr} is computed, on a path that never rebinds the cache: later queries answer from the stale value", loc(fi, o.node))
             else:
                 res.unknown(rule, fi.short, o.text(), f"rebound:{o.table}", f"{fi.short} updates entries of {o.table} without rebinding the cached self.{attr}; whether the cached value depends on them is not decided", loc(fi, o.node))
     if n == 0:
         res.unknown(rule, cls, f"self.{attr}", "writers", "no method writing the tables the cache depends on was found", "")
+
+
+def _via_keyed(ctx, v, cid, keyed_of) -> bool:
+    """the rebind point `cid` is a call of a same-object method that drops entries one by one"""
+    node = keyed_of.get(("node", v.fi.qualname, cid))
+    return bool(node)
 
 
 def check_deepcopy(ctx, res: Result, dotted: str, rule="E-FRESHCOPY"):
